@@ -26,6 +26,7 @@ type c05Case struct {
 	G      int      `json:"g"`
 	Class  string   `json:"class,omitempty"`
 	MayRefuse bool  `json:"may_refuse,omitempty"`
+	Unreadable int  `json:"unreadable,omitempty"` // 1-based index of an input that does not exist (0 = all inputs readable); -k: input k is a directory
 }
 
 func c05Names(n, variant int) []string {
@@ -110,6 +111,15 @@ func c05Gen(g *core.Gen) {
 	for _, cl := range []string{"zero", "periodic", "dupslice", "trailzero"} {
 		g.Emit(&c05Case{Sizes: []int{13, 8, 21}, Names: c05Names(3, 1), Slice: 4, Blocks: 4, G: 2, Class: cl})
 	}
+	// an input that cannot be read (missing, or a directory) at each position: a set that silently omits it would not be
+	// consistent with the input files Create was given
+	for nf := 1; nf <= 4; nf++ {
+		for k := 1; k <= nf; k++ {
+			for _, sign := range []int{1, -1} {
+				g.Emit(&c05Case{Sizes: []int{9, 4, 13, 6}[:nf], Names: c05Names(nf, 0), Slice: 4, Blocks: 3, G: 2, Unreadable: sign * k})
+			}
+		}
+	}
 	// many slices: 257, 300, 4097 (different constants), the 32768 limit, and beyond (may be refused)
 	big := []int{257, 300, 4097, 32767, 32768}
 	if g.Thorough() {
@@ -131,7 +141,14 @@ func c05Run(ci interface{}, r *core.Rec) {
 		p := path.Join("/d", c.Names[i])
 		paths = append(paths, p)
 		data := scen.Content(class, r.Seed, i, n, c.Slice)
-		fs.Put(p, data)
+		switch {
+		case c.Unreadable == i+1:
+			// not created at all
+		case c.Unreadable == -(i + 1):
+			fs.Put(p+"/inner", data) // p is then a directory
+		default:
+			fs.Put(p, data)
+		}
 		specs = append(specs, rpar2.FileSpec{Name: c.Names[i], Data: data})
 	}
 	// list the inputs in reverse to make sure ordering comes from the ids
@@ -147,6 +164,14 @@ func c05Run(ci interface{}, r *core.Rec) {
 	r.AddTransitions(1)
 	if pi != nil {
 		r.Violate("create-panic:"+pi.Frame, pi.Value+"\n"+pi.Stack)
+		return
+	}
+	if c.Unreadable != 0 {
+		if err == nil {
+			r.Violatef("create-succeeded-without-an-input", "input %d of %v cannot be read, but Create returned nil and wrote %d files: the set cannot be consistent with the inputs it was given", c.Unreadable, c.Names, len(fs.Writes()))
+		}
+		r.Outcome("unreadable " + errClass(err))
+		r.NontrivialCase()
 		return
 	}
 	if err != nil {
